@@ -350,6 +350,13 @@ func parsePossibilityOperator(input *input, version *VersionRelation) error {
 
 	switch operator {
 	case ">=", "<=", "<<", ">>":
+		switch input.Peek() {
+		case '=', '<', '>': /* >==, <=>, >>> ... are not operators either */
+			return fmt.Errorf(
+				"Unknown Operator in Possibility Version modifier: %s%c",
+				operator, input.Peek(),
+			)
+		}
 		version.Operator = operator
 		return nil
 	}
